@@ -332,12 +332,15 @@ def r2_append_ranges(ctx, rid):
     facts = {"record": norm(rec), "shape_store": norm(sst), "growth": [norm(g) for g in grows]}
 
     # (1) the shape is recomputed from the grown value list, after the growth on every path
-    recomputed = isinstance(sst.value, ast.Call) and call_name(sst.value) == "shape" and sst.value.args and \
-        _extent_source(ast.Subscript(value=sst.value, slice=ast.Constant(value=0), ctx=ast.Load()), varname, ctx, f) == "value"
-    if not recomputed and not (isinstance(sst.value, ast.Tuple) and len(sst.value.elts) >= 1 and _extent_source(sst.value.elts[0], varname, ctx, f) == "value"):
+    # the stored value may be held in a local first (new_shape = shape(var['value']); var['shape'] = new_shape): it is then the value
+    # list as it was where that local was bound
+    sval, s_at = _inline_keep(ctx, f, sst.value) if isinstance(sst.value, ast.Name) else (sst.value, sst)
+    recomputed = isinstance(sval, ast.Call) and call_name(sval) == "shape" and sval.args and \
+        _extent_source(ast.Subscript(value=sval, slice=ast.Constant(value=0), ctx=ast.Load()), varname, ctx, f) == "value"
+    if not recomputed and not (isinstance(sval, ast.Tuple) and len(sval.elts) >= 1 and _extent_source(sval.elts[0], varname, ctx, f) == "value"):
         raise AnalysisError(f"{rid}: `{norm(sst)}` does not recompute the shape from {varname}['value'] (unrecognised form)")
     first_in_body = inner.body[0]
-    skip = cfg.reachable_avoiding(inner, sst, lambda n: is_grow(n))
+    skip = cfg.reachable_avoiding(inner, s_at, lambda n: is_grow(n))
     if skip is not None and len(skip) > 1:
         ctx.violation(rid, f, sst, f"the shape is recomputed on a path that did not grow {varname}['value'] first ({cfg.path_str(skip)}): the new "
                                    f"extent would equal the old one and the appended node would get an empty index range", facts, label="shape recomputed after growth")
@@ -601,6 +604,15 @@ def r3_group_edges(ctx, rid):
                 c = c.func.value
             if isinstance(c, ast.Name) and c.id == col:
                 return e.left, pol == isinstance(e.ops[0], ast.In)
+        # group = col.get(key) ... if group is None / is not None
+        if isinstance(e, ast.Compare) and len(e.ops) == 1 and isinstance(e.ops[0], (ast.Is, ast.IsNot, ast.Eq, ast.NotEq)) \
+                and isinstance(e.comparators[0], ast.Constant) and e.comparators[0].value is None:
+            g = e.left
+            if isinstance(g, ast.Name):
+                g = single_def_value(ctx, f, g)
+            if isinstance(g, ast.Call) and call_name(g) == "get" and isinstance(g.func, ast.Attribute) and isinstance(g.func.value, ast.Name) \
+                    and g.func.value.id == col and g.args and (len(g.args) == 1 or (isinstance(g.args[1], ast.Constant) and g.args[1].value is None)):
+                return g.args[0], pol == isinstance(e.ops[0], (ast.IsNot, ast.NotEq))
         return None
     tests = [s for s in cfg.stmts() if isinstance(s, ast.If) and member_test(s.test) is not None]
     ctx.require(len(tests) == 1, f"{rid}: expected one membership test against `{col}`, found {len(tests)}")
@@ -618,6 +630,16 @@ def r3_group_edges(ctx, rid):
             return ast.dump(inline_locals(ctx, f, e)) == ast.dump(inline_locals(ctx, f, key_expr))
         except AnalysisError:
             return False
+
+    def comparable(e):
+        """e and the tested key are both plain names or tuples of the same length once single-definition locals are inlined, so that
+        a difference between them is a real difference"""
+        try:
+            a, b = inline_locals(ctx, f, e), inline_locals(ctx, f, key_expr)
+        except AnalysisError:
+            return False
+        return (isinstance(a, ast.Tuple) and isinstance(b, ast.Tuple) and len(a.elts) == len(b.elts)) or \
+            (isinstance(a, ast.Name) and isinstance(b, ast.Name))
 
     # the two branches as regions of the control-flow graph: everything reachable from the test's outcome within one iteration of the
     # edge loop (so `if k in col: merge else: create`, `if k not in col: create; continue` + merge and the mirrored forms are alike)
@@ -739,15 +761,30 @@ def r3_group_edges(ctx, rid):
     direct = [c[4] for _, c in evs if isinstance(c[4], ast.Subscript)]
     bds = [s for s in merge_region if isinstance(s, ast.Assign) and isinstance(s.value, ast.Subscript) and isinstance(s.value.value, ast.Name)
            and s.value.value.id == col and len(s.targets) == 1 and isinstance(s.targets[0], ast.Name)]
+    looked_up = None
+    if not bds and not direct and len(base_names) == 1 and evs and isinstance(evs[0][1][4], ast.Name):
+        # the group was fetched in front of the test: group = col.get(key) / col[key]
+        ds = ctx.rd(f).defs_reaching(evs[0][1][4])
+        if len(ds) == 1 and isinstance(ds[0], ast.Assign):
+            v0 = assigned_value(ds[0], evs[0][1][4].id)
+            if isinstance(v0, ast.Call) and call_name(v0) == "get" and isinstance(v0.func, ast.Attribute) and isinstance(v0.func.value, ast.Name) \
+                    and v0.func.value.id == col and v0.args:
+                looked_up = (ds[0], v0.args[0])
+            elif isinstance(v0, ast.Subscript) and isinstance(v0.value, ast.Name) and v0.value.id == col:
+                looked_up = (ds[0], v0.slice)
     if len(base_names) == 1 and direct and len(direct) == len(evs):
         if all(same_key(d.slice) for d in direct):
             ctx.ok(rid, f, t, "the lists that are extended belong to the group found under the tested key", label="merge: group identity")
         else:
             ctx.violation(rid, f, t, f"the extended group `{norm(direct[0])}` is not the one found by the membership test `{norm(t)}`", label="merge: group identity")
+    elif looked_up is not None and same_key(looked_up[1]):
+        ctx.ok(rid, f, looked_up[0], "the lists that are extended belong to the group found under the tested key", label="merge: group identity")
+    elif looked_up is not None and comparable(looked_up[1]):
+        ctx.violation(rid, f, looked_up[0], f"the extended group `{norm(looked_up[0])}` is not the one found by the membership test `{norm(t)}`",
+                      label="merge: group identity")
     elif len(base_names) == 1 and len(bds) == 1 and not direct and bds[0].targets[0].id in base_names and same_key(bds[0].value.slice):
         ctx.ok(rid, f, bds[0], "the lists that are extended belong to the group found under the tested key", label="merge: group identity")
-    elif len(base_names) == 1 and len(bds) == 1 and not direct and bds[0].targets[0].id in base_names \
-            and type(bds[0].value.slice) is type(key_expr) and isinstance(key_expr, (ast.Name, ast.Tuple)):
+    elif len(base_names) == 1 and len(bds) == 1 and not direct and bds[0].targets[0].id in base_names and comparable(bds[0].value.slice):
         ctx.violation(rid, f, bds[0], f"the extended group `{norm(bds[0].value)}` is not the one found by the membership test `{norm(t)}`", label="merge: group identity")
     else:
         raise AnalysisError(f"{rid}: cannot identify the group dictionary on the merging path (bases {sorted(base_names)})")
@@ -863,7 +900,7 @@ def r3_group_edges(ctx, rid):
     ctx.require(c_attr is not None, f"{rid}: creating path has an unrecognised form")
     if same_key(reg_tg.slice) and isinstance(reg_val, ast.Name) and reg_val.id == base_c == cdict:
         ctx.ok(rid, f, reg_st, "the new group is registered under the key the membership test uses", label="create: group identity")
-    elif isinstance(reg_val, ast.Name) and (type(reg_tg.slice) is type(key_expr) and isinstance(key_expr, (ast.Name, ast.Tuple)) or same_key(reg_tg.slice)):
+    elif isinstance(reg_val, ast.Name) and (comparable(reg_tg.slice) or same_key(reg_tg.slice)):
         ctx.violation(rid, f, reg_st, f"the new group is registered as `{norm(reg_st)}`, which does not match the membership test `{norm(t)}` / the "
                                       f"dictionary that was initialised: later edges of the same group would not be merged into it", label="create: group identity")
     else:
